@@ -140,19 +140,30 @@ func c14Body(size int, seed uint64, spoil string) (raw, want []byte) {
 // ---------------------------------------------------------------- child
 
 var c14c struct {
-	w, dest, src string
-	d            *DNSFilter
-	flt          *FilterYAML
-	http         bool
-	body         []byte
-	status       int
-	ln           net.Listener
+	w, dest string
+	d       *DNSFilter
+	flt     *FilterYAML
+	http    bool
+	addr    string
+	urlNo   int
+	body    []byte
+	status  int
+	ln      net.Listener
 }
 
 func must(err error) {
 	if err != nil {
 		panic(err)
 	}
+}
+
+// c14URL is the k-th source address of the block: a local file or an HTTP URL.
+func c14URL(k int) string {
+	if c14c.http {
+		return fmt.Sprintf("http://%s/list%d.txt", c14c.addr, k)
+	}
+
+	return filepath.Join(c14c.w, "src", fmt.Sprintf("list%d.txt", k))
 }
 
 func c14Child(f []string) []string {
@@ -165,29 +176,17 @@ func c14Child(f []string) []string {
 		}
 		w := f[1]
 		c14c.w = w
-		c14c.src = filepath.Join(w, "src", "list.txt")
+		c14c.urlNo = 0
 		must(os.MkdirAll(filepath.Join(w, "src"), 0o755))
 		must(os.MkdirAll(filepath.Join(w, "data", filterDir), 0o755))
 		must(os.MkdirAll(f[2], 0o755))
 		must(os.Setenv("TMPDIR", f[2]))
-		flt := &FilterYAML{Enabled: true, URL: c14c.src, Name: "c14", Filter: Filter{ID: 7}}
-		c14c.dest = flt.Path(filepath.Join(w, "data"))
-		if f[3] == "1" {
-			seed, _ := strconv.ParseUint(f[4], 10, 64)
-			_, want := c14Body(300, seed, "")
-			must(os.WriteFile(c14c.dest, want, 0o644))
-		}
-		d, err := New(&Config{
-			DataDir:        filepath.Join(w, "data"),
-			HTTPClient:     &http.Client{Timeout: 30 * time.Second},
-			SafeFSPatterns: []string{filepath.Join(w, "src", "*")},
-		}, nil)
-		must(err)
 		c14c.http = f[5] == "http"
 		if c14c.http {
 			ln, lerr := net.Listen("tcp", "127.0.0.1:0")
 			must(lerr)
 			c14c.ln = ln
+			c14c.addr = ln.Addr().String()
 			go func() {
 				_ = http.Serve(ln, http.HandlerFunc(func(w http.ResponseWriter, _ *http.Request) {
 					if c14c.status != 0 {
@@ -198,11 +197,24 @@ func c14Child(f []string) []string {
 					_, _ = w.Write(c14c.body)
 				}))
 			}()
-			flt.URL = "http://" + ln.Addr().String() + "/list.txt"
 		}
-		// As at startup: the checksum of what is on disk.
-		must(d.load(flt))
-		c14c.d, c14c.flt = d, flt
+		flt := FilterYAML{Enabled: true, URL: c14URL(0), Name: "c14", Filter: Filter{ID: 7}}
+		c14c.dest = flt.Path(filepath.Join(w, "data"))
+		if f[3] == "1" {
+			seed, _ := strconv.ParseUint(f[4], 10, 64)
+			_, want := c14Body(300, seed, "")
+			must(os.WriteFile(c14c.dest, want, 0o644))
+		}
+		// As at startup: New loads the enabled lists, which sets the checksum of
+		// what is on disk.
+		d, err := New(&Config{
+			DataDir:        filepath.Join(w, "data"),
+			HTTPClient:     &http.Client{Timeout: 60 * time.Second},
+			SafeFSPatterns: []string{filepath.Join(w, "src", "*")},
+			Filters:        []FilterYAML{flt},
+		}, nil)
+		must(err)
+		c14c.d, c14c.flt = d, &d.conf.Filters[0]
 
 		return []string{"ok"}
 	case "save":
@@ -212,7 +224,9 @@ func c14Child(f []string) []string {
 	}
 }
 
-// c14Save performs one real update.  Answer: committed newLen finalOK oldSum newSum.
+// c14Save performs one real refresh, or one change of the list's URL
+// (filterSetProperties, what POST /control/filtering/set_url does).
+// Answer: committed newLen finalOK oldSum newSum.
 func c14Save(variant, sizeS, seedS, probe string) []string {
 	size, _ := strconv.Atoi(sizeS)
 	seed, _ := strconv.ParseUint(seedS, 10, 64)
@@ -220,40 +234,73 @@ func c14Save(variant, sizeS, seedS, probe string) []string {
 	before, _ := os.ReadFile(dest)
 	oldSum := vc14.FileSum(dest)
 
-	spoil := ""
-	switch variant {
-	case "ok", "same":
+	setURL := strings.HasPrefix(variant, "seturl")
+	spoil, missing := "", false
+	switch strings.TrimPrefix(variant, "seturl") {
+	case "ok", "same", "":
 	case "bad", "toolong", "html":
-		spoil = variant
+		spoil = strings.TrimPrefix(variant, "seturl")
 	case "missing":
+		missing = true
 	default:
 		panic("unknown variant " + variant)
 	}
 	raw, want := c14Body(size, seed, spoil)
+
+	oldURL := c14c.flt.URL
+	url := oldURL
+	if setURL {
+		c14c.urlNo++
+		url = c14URL(c14c.urlNo)
+	}
 	c14c.status = 0
-	if variant == "missing" {
-		_ = os.Remove(c14c.src)
+	switch {
+	case missing && c14c.http:
 		c14c.status = http.StatusNotFound
-	} else if c14c.http {
+	case missing:
+		_ = os.Remove(url)
+	case c14c.http:
 		c14c.body = raw
-	} else {
-		must(os.WriteFile(c14c.src, raw, 0o644))
+	default:
+		must(os.WriteFile(url, raw, 0o644))
 	}
 
 	var ok bool
 	var err error
-	vc14.WithFault(probe, dest, func() { vc14.Window(func() { ok, err = c14c.d.update(c14c.flt) }) })
+	vc14.WithFault(probe, dest, func() {
+		vc14.Window(func() {
+			if setURL {
+				_, err = c14c.d.filterSetProperties(
+					oldURL,
+					FilterYAML{Enabled: true, URL: url, Name: c14c.flt.Name},
+					false,
+				)
+			} else {
+				ok, err = c14c.d.update(c14c.flt)
+			}
+		})
+	})
 
-	committed := ok && err == nil
 	after, rerr := os.ReadFile(dest)
+	committed := ok && err == nil
+	if setURL {
+		committed = err == nil && vc14.FileSum(dest) != oldSum
+	}
 	var finalOK bool
 	if committed {
 		finalOK = rerr == nil && bytes.Equal(after, want)
 	} else {
 		finalOK = bytes.Equal(after, before) && vc14.FileSum(dest) == oldSum
 	}
-	// An abandoned update must say so: error for spoiled sources, none for "same".
-	if !committed && (variant == "ok" || variant == "same") && (err != nil) != (probe == "faildir") {
+	// An abandoned update must say so: an error for spoiled or missing sources
+	// and for injected faults, none when the list simply has not changed.
+	lim := vc14.FsizeOf(probe)
+	wantErr := spoil != "" || missing || strings.HasPrefix(probe, "faildir") || (lim >= 0 && int64(len(want)) > lim)
+	if !committed && (err != nil) != wantErr {
+		finalOK = false
+	}
+	if setURL && err != nil && c14c.flt.URL != oldURL {
+		// A failed change rolls the properties back.
 		finalOK = false
 	}
 
@@ -349,39 +396,74 @@ func (p *c14Parent) gen(r *rand.Rand, emit vutil.Emit) {
 		emit(append([]string{"C14.reset", fmt.Sprintf("filter-%s-%d-%s", mode, resetSeed, src),
 			vutil.Hex(c14DestRel), strconv.Itoa(len(files))}, files...)...)
 
-		// What the filter currently holds, as far as the checksum is concerned.
-		curSize, curSeed, curEmpty := 300, resetSeed, !hasInitial
+		// What the generator knows about the implementation's state: the list in
+		// the file (size, seed; fileEmpty: no rules or no file) and whether the
+		// filter's remembered checksum is zero (never loaded, an empty list, or —
+		// a quirk of the code — any change of URL, even a failed one).
+		st := struct {
+			size      int
+			seed      uint64
+			wantLen   int
+			fileEmpty bool
+			ckZero    bool
+		}{300, resetSeed, 0, !hasInitial, !hasInitial}
+		if hasInitial {
+			_, w := c14Body(300, resetSeed, "")
+			st.wantLen, st.fileEmpty, st.ckZero = len(w), len(w) == 0, len(w) == 0
+		}
+
 		saves := 1 + r.IntN(20)
 		for s := 0; s < saves; s++ {
 			size := c14Size(r)
 			seed := r.Uint64N(1 << 40)
-			sz, sd := strconv.Itoa(size), strconv.FormatUint(seed, 10)
-			fault := ""
+			fault, lim := "", -1
 			switch f := r.IntN(16); {
 			case f == 0 && p.canImm:
 				fault = "faildir"
 			case f == 1:
 				fault = "notmp"
+			case f == 2 || f == 3:
+				lim = 0
+				if r.IntN(2) == 0 {
+					lim = r.IntN(2000)
+				}
+				fault = "fsize=" + strconv.Itoa(lim)
 			}
 			probe := vc14.Probe(mode, fault)
-			switch v := r.IntN(20); {
-			case v < 11:
-				// A list without rules has checksum 0, as has a filter never loaded.
-				empty := false
-				if size <= 1<<20 {
-					_, want := c14Body(size, seed, "")
-					empty = len(want) == 0
+			// The save fails before or while writing wantLen bytes.
+			writeFails := func(wantLen int) bool {
+				return fault == "faildir" || (lim >= 0 && wantLen > lim)
+			}
+			body := func(size int, seed uint64) (wantLen int, empty bool) {
+				if size > 1<<20 {
+					return size / 2, false
 				}
-				commit := !(empty && curEmpty) && fault != "faildir"
+				_, w := c14Body(size, seed, "")
+
+				return len(w), len(w) == 0
+			}
+
+			v := r.IntN(26)
+			if v >= 11 && v < 14 && st.fileEmpty {
+				v, size = 0, 0
+			}
+			sz, sd := strconv.Itoa(size), strconv.FormatUint(seed, 10)
+			switch {
+			case v < 11:
+				wantLen, empty := body(size, seed)
+				changed := !empty || !st.ckZero
+				commit := changed && !writeFails(wantLen)
 				emit("C14.save", "ok", sz, sd, vutil.B(commit), "0", probe)
 				if commit {
-					curSize, curSeed, curEmpty = size, seed, empty
+					st.size, st.seed, st.wantLen, st.fileEmpty, st.ckZero = size, seed, wantLen, empty, empty
 				}
 			case v < 14:
-				if curEmpty {
-					emit("C14.save", "ok", "0", sd, "0", "0", probe)
-				} else {
-					emit("C14.save", "same", strconv.Itoa(curSize), strconv.FormatUint(curSeed, 10), "0", "0", probe)
+				// The list in the file again: a change only when the checksum was
+				// forgotten.
+				commit := st.ckZero && !writeFails(st.wantLen)
+				emit("C14.save", "same", strconv.Itoa(st.size), strconv.FormatUint(st.seed, 10), vutil.B(commit), "0", probe)
+				if commit {
+					st.ckZero = false
 				}
 			case v < 16:
 				emit("C14.save", "bad", sz, sd, "0", "0", probe)
@@ -389,8 +471,24 @@ func (p *c14Parent) gen(r *rand.Rand, emit vutil.Emit) {
 				emit("C14.save", "toolong", sz, sd, "0", "0", probe)
 			case v < 18:
 				emit("C14.save", "html", sz, sd, "0", "0", probe)
-			default:
+			case v < 20:
 				emit("C14.save", "missing", "0", sd, "0", "0", probe)
+			case v < 23:
+				// set_url to a good list: the old file must stay until the new one
+				// is complete.
+				wantLen, empty := body(size, seed)
+				commit := !empty && !writeFails(wantLen)
+				emit("C14.save", "seturl", sz, sd, vutil.B(commit), "0", probe)
+				st.ckZero = true
+				if commit {
+					st.size, st.seed, st.wantLen, st.fileEmpty, st.ckZero = size, seed, wantLen, false, false
+				}
+			case v < 25:
+				emit("C14.save", "seturlbad", sz, sd, "0", "0", probe)
+				st.ckZero = true
+			default:
+				emit("C14.save", "seturlmissing", "0", sd, "0", "0", probe)
+				st.ckZero = true
 			}
 		}
 	}
